@@ -13,10 +13,10 @@ TEXT = {
        "values straddle the 16 KiB preallocation window; the unsafe bulk/array/Box paths additionally run under Miri (quick) and ASan+valgrind (thorough).",
   note="Equality is the bridge's value equality (floats by bits, heaps as multisets, skipped fields defaulted)."),
  "C03": dict(
-  technique="runtime monitoring: differential against an independent SCALE decoder on hostile byte strings; exhaustive short strings; process-level crash/CPU-limit observation",
+  technique="runtime monitoring: differential against an independent SCALE decoder on hostile byte strings (generated, mutated, and coverage-guided libFuzzer inputs); exhaustive short strings; ASan; process-level crash/CPU-limit observation",
   text="Accept/reject, value and consumed length of the real decoder are compared with a specification decoder on valid, mutated, count-tampered, "
        "near-valid and random byte strings for every decodable type, and on ALL strings up to 2/3 bytes for 37 small-alphabet types; panics are caught, "
-       "aborts and CPU-limit hits are attributed to the last case. Totality on unseen inputs is not claimed.",
+       "aborts and CPU-limit hits are attributed to the last case. A coverage-guided libFuzzer stage (16 forks, ASan build) drives the same differential oracle over all universe types, with a 10 s per-input timeout; its crashes are replayed natively before they count. Totality on unseen inputs is not claimed.",
   note="Non-termination is restated as a CPU budget per shard; inputs needing >10^6 model steps (giant counts over empty-encoding elements) are skipped and counted."),
  "C04": dict(
   technique="runtime monitoring: arithmetic reference model over exhaustively enumerated values and byte strings (8/16/32 bit) plus structured and random cases (64/128 bit)",
